@@ -8,6 +8,10 @@
 \*   request first, mapping active)                                     5*7*2     =   70 cells
 \* + mapping shapes noListen / noTarget (ListenClientID / TargetClientID = 0; tunnel state none)
 \*   5*7*7*2                                                                      =  490 cells
+\* + mapping state "expiredJust" (ExpiresAt a fraction of a second ago) everywhere: 8 mapping states
+\* + order "slowUsage" (usage write-back held by a slow store; mapping changed after the open was
+\*   acknowledged; tunnel state waiting, 7 non-active states)          5*7*7     =  245 cells
+\* + tunnel state "prefixRemote" (T and T+ share 16 bytes; request names T+ on node B)   35 cells
 \* each cell is a deterministic run of <= 6 steps.
 \* FIXES also knows "bindMappingPoll" (second half of patches/C04-3: the comparison on the record
 \* found while polling).
@@ -18,11 +22,11 @@ CONSTANTS
   FIXES = @@FIXES@@
   Idents = {"none", "noneHs", "listen", "target", "stranger"}
   Creds = {"idOnly", "rightSecret", "wrongSecret", "resume", "nothing", "otherId", "otherSecret"}
-  MStates = {"active", "revoked", "expired", "inactive", "error", "suspended", "missing"}
+  MStates = {"active", "revoked", "expired", "expiredJust", "inactive", "error", "suspended", "missing"}
   Shapes = {"std", "noListen", "noTarget"}
   MUT = {}
   TStates = @@TSTATES@@
-  Orders = {"legitFirst", "reqFirst"}
+  Orders = @@ORDERS@@
   Masked = @@MASKED@@
   Emit = @@EMIT@@
 INIT Init
